@@ -33,7 +33,8 @@ LEVEL_TEXT = ('For every shipped config and random compositions with every stoch
               'environments, component calls without rng=, reset_gv_rng / numpy.random.seed / random.seed and debug flips; traces '
               'must be equal and no operation of the seeded environment may move gym_gridverse.rng, numpy.random or random '
               '(snapshot compare). Child interpreters with different PYTHONHASHSEED recompute SHA-256 digests of every config\'s '
-              'trace, which must agree; thorough adds 4 environments on 4 real threads with a 1 microsecond switch interval.')
+              'trace, which must agree; thorough adds 4 environments on 4 real threads with a 1 microsecond switch interval.'
+              ' Also: every reset function over a parameter grid called with identically seeded generators (equal states, no global generator touched), special seed values, re-seeded used environments, chain members behind **kwargs wrappers, a never-created library generator (its stream must not become a function of the environment seed), child interpreters digesting configs, reset components and stochastic Python-API compositions under other hash seeds.')
 LEVEL_NOTE = ('Trusted: trace recorder and canonical encodings. Equality between different operation sequences is not demanded. '
               'Only executions produced are decided; interleavings are sampled (count of distinct schedules in evidence).')
 SHARDS = {'quick': 4, 'thorough': 16}
